@@ -57,6 +57,8 @@ type pgen struct {
 	getters []string
 	methods []string
 	vars    []string
+	funcs   []string // methods declared by the program so far
+	nfn     int
 }
 
 func (g *pgen) pick(n int, w string) int { return rapid.IntRange(0, n-1).Draw(g.t, w) }
@@ -115,7 +117,8 @@ func (g *pgen) expr(d int) zn.Expr {
 		for i, n := 0, g.pick(3, "na"); i < n; i++ {
 			args = append(args, g.expr(d-1))
 		}
-		return &zn.Call{Name: []string{"显示", "取随机数", "未知", "数值", "异常", g.vars[0]}[g.pick(6, "fn")], Args: args}
+		names := append([]string{"显示", "取随机数", "未知", "数值", "异常", g.vars[0]}, g.funcs...)
+		return &zn.Call{Name: names[g.pick(len(names), "fn")], Args: args}
 	case 7:
 		var args []zn.Expr
 		for i, n := 0, g.pick(4, "na"); i < n; i++ {
@@ -143,7 +146,36 @@ func (g *pgen) expr(d int) zn.Expr {
 func (g *pgen) stmts(d int) []zn.Stmt {
 	var out []zn.Stmt
 	for i, n := 0, 1+g.pick(4, "ns"); i < n; i++ {
-		switch g.pick(12, "sk") {
+		switch g.pick(14, "sk") {
+		case 12, 13:
+			// declarations at any block level: methods whose body is statements, only a
+			// nested declaration, or only a type; used (called / displayed) afterwards
+			g.nfn++
+			nm := fmt.Sprintf("方%d", g.nfn)
+			var body []zn.Stmt
+			switch g.pick(4, "fbody") {
+			case 0:
+				body = []zn.Stmt{&zn.FuncDef{Name: nm + "内", Body: []zn.Stmt{&zn.Return{E: g.expr(1)}}}}
+			case 1:
+				body = []zn.Stmt{&zn.ClassDef{Name: nm + "类", Props: []zn.Prop{{Name: "值", Init: g.expr(1)}}}}
+			default:
+				if d > 0 {
+					body = g.stmts(d - 1)
+				} else {
+					body = []zn.Stmt{&zn.ExprStmt{E: g.expr(2)}}
+				}
+			}
+			var params []string
+			if g.pick(3, "fparams") == 0 {
+				params = []string{nm + "参"}
+			}
+			out = append(out, &zn.FuncDef{Name: nm, Params: params, Body: body})
+			g.funcs = append(g.funcs, nm)
+			var args []zn.Expr
+			for i, n := 0, g.pick(3, "fargs"); i < n; i++ {
+				args = append(args, g.expr(1))
+			}
+			out = append(out, &zn.ExprStmt{E: &zn.Call{Name: "显示", Args: []zn.Expr{&zn.Call{Name: nm, Args: args}}}})
 		case 0, 1, 2:
 			out = append(out, &zn.ExprStmt{E: g.expr(3)})
 		case 3:
@@ -305,6 +337,12 @@ func TestCollectionSequences(t *testing.T) {
 				return vr("valvar")
 			case 1:
 				return &zn.ListLit{Items: []zn.Expr{&zn.Num{Val: 1}}}
+			case 2:
+				// a fresh collection that holds one of the variables (possibly the receiver)
+				if g.pick(2, "wrapk") == 0 {
+					return &zn.ListLit{Items: []zn.Expr{vr("wrapped")}}
+				}
+				return &zn.DictLit{Keys: []string{"w"}, Vals: []zn.Expr{vr("wrapped")}}
 			default:
 				return &zn.Num{Val: float64(g.pick(50, "v"))}
 			}
@@ -360,7 +398,14 @@ func TestCollectionSequences(t *testing.T) {
 				if dict {
 					st = mcall(a, "读取", key())
 				} else {
-					st = mcall(a, []string{"交换", "合并", "新增"}[g.pick(3, "lm")], small(), small())
+					switch g.pick(3, "lm") {
+					case 0:
+						st = mcall(a, "交换", small(), small())
+					case 1:
+						st = mcall(a, "合并", val(), &zn.ListLit{Items: []zn.Expr{vr("merged")}})
+					default:
+						st = mcall(a, "新增", val(), small())
+					}
 				}
 			case 8: // mutation while iterating
 				inner := vr("inner")
